@@ -9,7 +9,8 @@
 //           with a batch processor and two tracers the case ends with a few more spans (of every
 //           tracer) that are NOT flushed: the application drops all span and tracer handles and
 //           destroys the provider without ForceFlush/Shutdown, so the exporter sees (and reads the
-//           resource and instrumentation scope of) those spans during the tear-down drain.
+//           resource and instrumentation scope of) those spans during the tear-down drain.  In a third of
+//           the cases one or two more processors are added to the provider while spans are open.
 // mode=conc (flavour tsan + perturbation shim), engine E2: 2..4 threads mutate one span while 1..2
 //           threads end it; call/return stamps from one logical clock decide which operations must be
 //           present, must be absent, or are free.
@@ -83,11 +84,14 @@ struct Env
   std::vector<TracerInfo> tracers;
   int64_t marker = 0;
   bool any_batch = false;
+  bool patient   = false;   // batch processors of this case are built patient (see make_processor)
+  size_t base_procs = 0;    // processors configured before the first span (the rest: added while spans were open)
   std::string desc;
 };
 
-// patient: a batch processor that exports only when told to (ForceFlush / Shutdown / destructor), so
-// that spans ended shortly before the provider's tear-down are certainly still queued
+// patient: a batch processor that exports when told to (ForceFlush / Shutdown / destructor) or after 3 s,
+// so that spans ended shortly before the provider's tear-down are as good as always still queued (a copy
+// exported by the timer instead is judged the same way and only counted: teardown_spans_exported_early)
 static std::unique_ptr<sdktrace::SpanProcessor> make_processor(Rng &r, const std::shared_ptr<ProcState> &st, bool patient = false)
 {
   switch (st->kind)
@@ -106,7 +110,10 @@ static std::unique_ptr<sdktrace::SpanProcessor> make_processor(Rng &r, const std
       {
         o.max_queue_size        = 64;
         o.max_export_batch_size = std::max<size_t>(o.max_export_batch_size, 16);
-        o.schedule_delay_millis = std::chrono::milliseconds(3600 * 1000);
+        // not longer: BatchSpanProcessor::ForceFlush can miss the worker's notification (it is sent without
+        // force_flush_cv_m held) and then sleeps one full schedule delay before it re-checks; with an hour here a
+        // thorough run stalled in exactly that state
+        o.schedule_delay_millis = std::chrono::milliseconds(3000);
       }
       return std::unique_ptr<sdktrace::SpanProcessor>(
           new sdktrace::BatchSpanProcessor(std::unique_ptr<sdktrace::SpanExporter>(new RecExporter(st)), o));
@@ -146,6 +153,8 @@ static void build_env(Env &e, Rng &r, int max_procs, int ntracers, bool patient_
   // AddProcessor appends: e.procs is kept in the order the provider holds them
   e.procs = ctor_st;
   e.procs.insert(e.procs.end(), later_st.begin(), later_st.end());
+  e.base_procs = e.procs.size();
+  e.patient    = patient_batch;
   for (size_t i = 0; i < e.procs.size(); ++i)
     e.desc += std::string(i ? "+" : "") + kProcName[e.procs[i]->kind] + (i >= ctor_st.size() ? "(added)" : "");
   e.marker = static_cast<int64_t>(r.next() >> 1);
@@ -278,6 +287,15 @@ enum EndMode
   kEndImplicit
 };
 
+// a start given on one clock only
+enum HalfStart
+{
+  kHalfNone = 0,
+  kHalfSystem,  // start_system_time only
+  kHalfSteady   // start_steady_time only
+};
+static const char *const kHalfName[3] = {"", "system-only", "steady-only"};
+
 struct SpanRun
 {
   MSpan m;
@@ -285,6 +303,11 @@ struct SpanRun
   std::string span_id;
   MCtx ctx;
   int tracer   = 0;
+  int half      = kHalfNone;
+  int64_t given = 0;  // the one start clock that was given (half != kHalfNone)
+  // processors the provider held at StartSpan / at End: [0,nprocs_start) must receive the span,
+  // [nprocs_start,nprocs_end) were added while it was open (free), the rest after its End (nothing)
+  size_t nprocs_start = 0, nprocs_end = 0;
   int pre_left = 0, post_left = 0, post_total = 0;
   int end_mode    = kEndPlain;
   bool second_end = false;
@@ -308,6 +331,40 @@ static std::string short_items(const Items &it)
   for (size_t i = 0; i < it.size() && i < 4; ++i)
     s += vf::show(it[i].first, 8) + ":" + kAltName[it[i].second.alt] + ",";
   return s + "}" + std::to_string(it.size());
+}
+
+static int64_t gen_start_sys(Rng &r)
+{
+  int64_t v;
+  switch (r.below(5))
+  {
+    case 0:
+      return sys_now() - r.range(0, 1000000000);
+    case 1:
+      return r.range(1, 1000);
+    case 2:
+      return -r.range(1, 1000000);
+    case 3:
+      return r.coin() ? std::numeric_limits<int64_t>::max() : std::numeric_limits<int64_t>::min();
+    default:
+      v = static_cast<int64_t>(r.next());
+      return v == 0 ? 1 : v;
+  }
+}
+
+static int64_t gen_start_steady(Rng &r)
+{
+  int64_t v;
+  switch (r.below(3))
+  {
+    case 0:
+      v = steady_now() - r.range(0, 1000000000);
+      return v <= 0 ? 1 : v;
+    case 1:
+      return r.range(1, 1000);
+    default:
+      return static_cast<int64_t>(r.next() >> 3) | 1;  // < 2^61
+  }
 }
 
 static void start_span(Env &e, Gen &g, SpanRun &s, int use_tracer = -1)
@@ -336,51 +393,32 @@ static void start_span(Env &e, Gen &g, SpanRun &s, int use_tracer = -1)
   {
     // both clocks given, as the API requires for an explicit start
     m.start_explicit = true;
-    switch (r.below(5))
-    {
-      case 0:
-        m.start_sys = sys_now() - r.range(0, 1000000000);
-        break;
-      case 1:
-        m.start_sys = r.range(1, 1000);
-        break;
-      case 2:
-        m.start_sys = -r.range(1, 1000000);
-        break;
-      case 3:
-        m.start_sys = r.coin() ? std::numeric_limits<int64_t>::max() : std::numeric_limits<int64_t>::min();
-        break;
-      default:
-        m.start_sys = static_cast<int64_t>(r.next());
-        if (m.start_sys == 0)
-          m.start_sys = 1;
-    }
-    switch (r.below(3))
-    {
-      case 0:
-        m.start_steady = steady_now() - r.range(0, 1000000000);
-        if (m.start_steady <= 0)
-          m.start_steady = 1;
-        break;
-      case 1:
-        m.start_steady = r.range(1, 1000);
-        break;
-      default:
-        m.start_steady = static_cast<int64_t>(r.next() >> 3) | 1;  // < 2^61
-    }
+    m.start_sys      = gen_start_sys(r);
+    m.start_steady   = gen_start_steady(r);
     opts.start_system_time = common::SystemTimestamp(std::chrono::nanoseconds(m.start_sys));
     opts.start_steady_time = common::SteadyTimestamp(std::chrono::nanoseconds(m.start_steady));
     R.count("start_explicit");
   }
-  else if (sm < 46)
+  else if (sm < 50)
   {
-    // only one of the two clocks: outside the API's documented precondition -> not judged
+    // only one of the two clocks: that one is taken as given, the other is read during StartSpan.
+    // check_copy knows the two as a pair only (judge_start = false); judged by check_half_start.
     m.judge_start = false;
     if (r.coin())
-      opts.start_system_time = common::SystemTimestamp(std::chrono::nanoseconds(r.range(1, 1000000)));
+    {
+      s.half                 = kHalfSystem;
+      s.given                = gen_start_sys(r);
+      opts.start_system_time = common::SystemTimestamp(std::chrono::nanoseconds(s.given));
+      R.count("start_system_only");
+    }
     else
-      opts.start_steady_time = common::SteadyTimestamp(std::chrono::nanoseconds(r.range(1, 1000000)));
-    R.count("start_half_explicit_dontcare");
+    {
+      // back-dated, tiny, far in the future, or slightly ahead of the clock
+      s.half                 = kHalfSteady;
+      s.given                = r.chance(1, 4) ? steady_now() + r.range(1, 1000000000) : gen_start_steady(r);
+      opts.start_steady_time = common::SteadyTimestamp(std::chrono::nanoseconds(s.given));
+      R.count("start_steady_only");
+    }
   }
   unsigned pm = static_cast<unsigned>(r.below(100));
   if (pm < 25)
@@ -462,11 +500,12 @@ static void start_span(Env &e, Gen &g, SpanRun &s, int use_tracer = -1)
   m.sst_hi   = steady_now();
   m.start_hi = sys_now();
   bk.kill(r.coin());
-  s.state   = 1;
-  s.ctx     = ctx_of(s.sp->GetContext());
+  s.state        = 1;
+  s.nprocs_start = e.procs.size();
+  s.ctx          = ctx_of(s.sp->GetContext());
   s.span_id = s.ctx.span_id;
   s.log("Start[" + std::to_string(path) + "](" + vf::show(m.name, 12) + ",kind=" + std::to_string(m.kind) +
-        (m.start_explicit ? ",t0" : "") + "," + short_items(attrs) + ",links=" + std::to_string(links.size()) + ")");
+        (m.start_explicit ? ",t0" : s.half ? std::string(",t0:") + kHalfName[s.half] : "") + "," + short_items(attrs) + ",links=" + std::to_string(links.size()) + ")");
   R.count("spans_started");
   if (!links.empty())
     R.count("spans_with_start_links");
@@ -670,11 +709,12 @@ static void end_span(Gen &g, SpanRun &s, bool first)
   int64_t e         = 0;
   if (with_options)
   {
-    if (m.start_explicit)
+    if (m.start_explicit || s.half == kHalfSteady)
     {
-      int64_t room = std::numeric_limits<int64_t>::max() / 2 - m.start_steady;
+      int64_t st   = m.start_explicit ? m.start_steady : s.given;
+      int64_t room = std::numeric_limits<int64_t>::max() / 2 - st;
       int64_t d    = r.chance(1, 5) ? 0 : r.chance(1, 4) ? 1 : r.range(2, int64_t(1) << 40);
-      e            = m.start_steady + (d < room ? d : 0);
+      e            = st + (d < room ? d : 0);
     }
     else
       e = steady_now() + r.range(0, 1000000000);
@@ -722,6 +762,36 @@ static std::string where(Env &e, size_t p, const SpanRun &s)
          "]; program: " + s.trace;
 }
 
+// Start given on one clock only (seeded change C04-w4-1): each clock is "the given value, else now"
+// on its own (sdk/src/trace/span.cc, NowOr).  The given clock is exact; the other one was read between
+// the harness' reads right before and right after StartSpan; a default end between the reads around End.
+// Only the order of clock reads is used, no tolerance.
+static bool check_half_start(const SpanRun &s, const Obs &o, Verdicts &V)
+{
+  const MSpan &m    = s.m;
+  unsigned before   = V.reported;
+  std::string smode = kHalfName[s.half];
+  bool steady       = s.half == kHalfSteady;
+  if (!steady)
+  {
+    if (o.start != s.given)
+      V.fail("start-time", smode, "got " + std::to_string(o.start) + " want the given " + std::to_string(s.given));
+  }
+  else if (o.start < m.start_lo || o.start > m.start_hi)
+    V.fail("start-time", smode,
+           "got " + std::to_string(o.start) + " want within [" + std::to_string(m.start_lo) + "," +
+               std::to_string(m.start_hi) + "] (system clock read before/after StartSpan)");
+  int64_t s_lo = steady ? s.given : m.sst_lo, s_hi = steady ? s.given : m.sst_hi;
+  int64_t e_lo = m.end_explicit ? m.end_steady : m.est_lo, e_hi = m.end_explicit ? m.end_steady : m.est_hi;
+  int64_t d_lo = e_lo - s_hi, d_hi = e_hi - s_lo;
+  if (o.duration < d_lo || o.duration > d_hi)
+    V.fail("duration", smode + "-start:" + (m.end_explicit ? "explicit" : "default") + "-end",
+           "got " + std::to_string(o.duration) + " want within [" + std::to_string(d_lo) + "," + std::to_string(d_hi) +
+               "] = end " + (m.end_explicit ? "(given) " : "(steady clock read before/after End) ") + "- start " +
+               (steady ? "(given " + std::to_string(s.given) + ")" : "(steady clock read before/after StartSpan)"));
+  return V.reported == before;
+}
+
 // at_teardown: the span was ended without a flush and the provider has been destroyed since (no
 // ForceFlush, no Shutdown): what the exporters hold now was exported at End (simple, custom) or during
 // the tear-down drain (batch).  Same oracle; a missing/duplicate copy gets its own input class.
@@ -730,6 +800,7 @@ static void verify_span(Env &e, SpanRun &s, uint64_t *dontcare_desc, bool at_tea
   auto &R = vf::report();
   if (e.any_batch && !at_teardown)
     e.provider->ForceFlush();
+  s.nprocs_end = e.procs.size();  // nothing is added between End and this call
   std::vector<Obs> copies;
   bool all_ok = true;
   for (size_t p = 0; p < e.procs.size(); ++p)
@@ -737,6 +808,12 @@ static void verify_span(Env &e, SpanRun &s, uint64_t *dontcare_desc, bool at_tea
     ProcState &ps = *e.procs[p];
     auto d        = deliveries_of(ps, s.span_id);
     s.base.push_back(d.size());
+    if (p >= s.nprocs_start)
+    {
+      // added while this span was open: whether it sees the span is free (not judged)
+      R.count(d.empty() ? "open_span_not_seen_by_added_processor_dontcare" : "open_span_seen_by_added_processor_dontcare");
+      continue;
+    }
     if (d.size() != 1)
     {
       R.violation("notify-once", std::string(kProcName[ps.kind]) + ":" + count_class(d.size()) + (at_teardown ? ":provider-teardown" : ""),
@@ -751,6 +828,8 @@ static void verify_span(Env &e, SpanRun &s, uint64_t *dontcare_desc, bool at_tea
     Verdicts V;
     V.where = where(e, p, s);
     bool ok = check_copy(s.m, d[0], V, p == 0 ? dontcare_desc : nullptr);
+    if (s.half != kHalfNone)
+      ok &= check_half_start(s, d[0], V);
     if (!(d[0].ctx == s.ctx))
     {
       V.fail("identity", "span-context", "exported context " + d[0].ctx.show() + " but GetContext() " + s.ctx.show());
@@ -759,7 +838,7 @@ static void verify_span(Env &e, SpanRun &s, uint64_t *dontcare_desc, bool at_tea
     all_ok &= ok;
     copies.push_back(d[0]);
   }
-  if (all_ok && copies.size() == e.procs.size())
+  if (all_ok && copies.size() == s.nprocs_start)
   {
     for (size_t p = 1; p < copies.size(); ++p)
     {
@@ -805,6 +884,13 @@ static void verify_span(Env &e, SpanRun &s, uint64_t *dontcare_desc, bool at_tea
       R.count("spans_renamed");
     if (s.m.end_explicit)
       R.count("end_explicit");
+    if (s.half != kHalfNone)
+      R.count(std::string("verified_start_") + (s.half == kHalfSystem ? "system" : "steady") + "_only_" +
+              (s.m.end_explicit ? "explicit" : "default") + "_end");
+    if (s.nprocs_end > s.nprocs_start)
+      R.count("spans_verified_open_across_add_processor");
+    if (s.nprocs_start > e.base_procs)
+      R.count("spans_verified_started_after_add_processor");
     R.maxi("max_attributes_per_span", s.m.attrs.size());
     R.maxi("max_events_per_span", s.m.events.size());
   }
@@ -830,7 +916,7 @@ static void check_after_end(Env &e, SpanRun &s, const std::string &op)
       late  = ps.late_calls;
       names = ps.late_call_names;
     }
-    if (n > (p < s.base.size() ? s.base[p] : 1))
+    if (n > (p < s.base.size() ? s.base[p] : 0))  // no entry: processor added after this span's End
     {
       R.violation("after-end-ignored", op,
                   std::string(kProcName[ps.kind]) + " processor was notified " + std::to_string(n) + " times @ " +
@@ -929,6 +1015,15 @@ static void final_checks(Env &e, std::vector<SpanRun> &spans, Rng &r, std::vecto
       if (s.state == 0)
         continue;
       auto d = deliveries_of(ps, s.span_id);
+      if (p >= s.nprocs_start)
+      {
+        // added while the span was open: free; added after its End: the span is none of its business
+        if (p >= s.nprocs_end && !d.empty())
+          R.violation("notify-once", std::string(kProcName[ps.kind]) + ":added-after-end",
+                      std::to_string(d.size()) + " notifications at a processor added after the span's End @ " +
+                          where(e, p, s));
+        continue;
+      }
       if (d.size() != 1)
         R.violation("notify-once", std::string(kProcName[ps.kind]) + ":" + count_class(d.size()),
                     std::to_string(d.size()) + " notifications by the end of the case @ " + where(e, p, s));
@@ -938,6 +1033,31 @@ static void final_checks(Env &e, std::vector<SpanRun> &spans, Rng &r, std::vecto
       R.violation("notify-once", std::string(kProcName[ps.kind]) + ":null-recordable",
                   "processor/exporter was handed a null recordable");
   }
+}
+
+// TracerProvider::AddProcessor while spans are open (seeded change C04-w4-2: a path chosen by the current
+// number of processors, per call).  Every processor configured when a span was started must still get
+// that span exactly once and complete; the new processor must get every span started from now on.
+static void add_processor_while_open(Env &e, Rng &ar, std::vector<SpanRun> &spans)
+{
+  auto &R    = vf::report();
+  auto st    = std::make_shared<ProcState>();
+  st->kind   = static_cast<int>(ar.below(3));
+  st->retain = st->kind == kCustom || ar.coin();
+  auto p     = make_processor(ar, st, e.patient);
+  R.count("processors_added_while_span_open");
+  if (e.procs.size() == 1)
+    R.count("processors_added_while_span_open_to_single");
+  e.provider->AddProcessor(std::move(p));
+  e.procs.push_back(st);
+  e.any_batch |= st->kind == kBatch;
+  e.desc += std::string("+") + kProcName[st->kind] + "(added-while-open)";
+  for (auto &s : spans)
+    if (s.state == 1)
+    {
+      s.log(std::string("AddProcessor(") + kProcName[st->kind] + ")");
+      R.count("spans_open_at_add_processor");
+    }
 }
 
 static void seq_case(uint64_t seed)
@@ -952,6 +1072,10 @@ static void seq_case(uint64_t seed)
   const int ntracers = r.chance(1, 3) ? 2 : 1;
   build_env(e, r, 4, ntracers, teardown_wish && ntracers >= 2);
   const bool teardown = teardown_wish && e.tracers.size() >= 2 && e.any_batch;
+  // processors added while spans are open: wished for by a third of the cases (own generator: the span
+  // programs stay what they are)
+  Rng ar(vf::mix(seed, vf::fnv1a("add-processor-while-open")));
+  int adds_left = ar.chance(1, 3) ? (ar.chance(1, 4) ? 2 : 1) : 0;
   Gen g(r);
   unsigned sc   = static_cast<unsigned>(r.below(10));
   size_t nspans = sc < 7 ? 1 : sc < 9 ? 2 : 3;
@@ -973,6 +1097,17 @@ static void seq_case(uint64_t seed)
   size_t done            = 0;
   while (done < spans.size())
   {
+    if (adds_left > 0)
+    {
+      bool open = false;
+      for (auto &x : spans)
+        open |= x.state == 1;
+      if (open && ar.chance(1, 3))
+      {
+        --adds_left;
+        add_processor_while_open(e, ar, spans);
+      }
+    }
     // interleave the spans of the case
     size_t i = static_cast<size_t>(r.below(spans.size()));
     while (spans[i].state == 3)
@@ -1057,7 +1192,7 @@ static void seq_case(uint64_t seed)
       s.state = 3;
     }
   }
-  size_t nprocs = e.procs.size();
+  size_t nprocs = e.base_procs;  // configured before the first span
   bool batch    = e.any_batch;
   std::string desc = e.desc;
   if (teardown)
@@ -1613,6 +1748,7 @@ static void conc_case(uint64_t seed)
   fake.span_id = ctx.span_id;
   fake.state   = 2;
   fake.trace   = summary;
+  fake.nprocs_start = fake.nprocs_end = e.procs.size();
   for (auto &ps : e.procs)
     fake.base.push_back(deliveries_of(*ps, ctx.span_id).size());
   size_t post  = static_cast<size_t>(r.range(0, 4));
